@@ -109,7 +109,17 @@ def run(chk, replay=None):
         if m == "panic":
             chk.violation({"class": "model-panic", "what": text[:200]}, dict(base, model=m, broken="the model of ast.rs reaches a panic site on a parsed program (contradicts C04_analyze_no_panic) — would the Rust panic too?"))
             continue
+        if must and not impl_ok:
+            chk.violation({"class": "well-typed-rejected", "what": "%s || %s" % (x[:120], text[:200])}, dict(base, broken="a well-typed program (generated from the book's rules / shipped example) is rejected"))
+            continue
         if impl_ok != model_ok:
+            if impl_ok:
+                # accepted although the (sound) model of the analysis rejects it: look for the concrete failure downstream
+                c = impl("core", ["(commit %s () 0)" % quote(text)], shards=1)[0]
+                if c.startswith("(cerr") and "param" not in c.lower() or c.startswith("PANIC") or c.startswith("CRASH"):
+                    chk.violation({"class": "accepted-but-not-compiled", "what": "%s || %s" % (c[:120], text[:200])},
+                                  dict(base, model=m[:2000], downstream=c, broken="the front end accepts a program that is not well typed: code generation fails on it (the model of ast.rs rejects it)"))
+                    continue
             chk.violation({"class": "acceptance", "what": "impl %s, model %s || %s" % ("accepts" if impl_ok else "rejects: " + x[:80], "accepts" if model_ok else "rejects", text[:200])},
                           dict(base, model=m[:2000], broken="ast.rs and its model Front/Analyze.v disagree on acceptance: either the model is stale or the front end now accepts/rejects differently (C04_analyze_sound is about the model)"))
             continue
@@ -118,8 +128,6 @@ def run(chk, replay=None):
             mm = m[:m.rindex(" (tracked")] + ")"
             if mm != x:
                 chk.violation({"class": "typed-ast", "what": text[:200]}, dict(base, model=m[:3000], broken="ast.rs and its model produce different typed ASTs / parameter / witness tables"))
-        if must and not impl_ok:
-            chk.violation({"class": "well-typed-rejected", "what": "%s || %s" % (x[:120], text[:200])}, dict(base, broken="a well-typed program (generated from the book's rules / shipped example) is rejected"))
     chk.extra["rule"] = ("the generated well-typed family and the shipped examples (must be accepted); single-edit near misses: one targeted family per static rule (type, array size, list bound, tuple arity, scope, "
                          "duplicate pattern variable, witness reuse / outside main, main shape, literal range / digit count, cast endpoints, fold bound, unwrap type, argument count, reserved/unknown jet, duplicate "
                          "function, use before definition, two mains) plus random token edits, and an edge corpus — every one classified by the model of ast.rs (whose acceptance implies well-typedness by C04_analyze_sound): "
